@@ -213,6 +213,25 @@ def base_worlds(tier, seed):
     ws.append(dict(refs=[refs[1], refs[0], refs[2]],
                    queries=[e2e.worlds.as_map(9, qb), e2e.worlds.as_map(4, qa), e2e.worlds.as_map(17, pool[1][1]), e2e.worlds.as_map(30, [100.0, 20000.0])],
                    desc=['two parts far apart on one reference', 'two joinable parts', 'plain', 'unalignable']))
+    # two DIFFERENT molecules with the same number of labels and the same distance from first to last label (windows of the
+    # lattice reference, whose spans are multiples of 1400 bp): anything that recognises a molecule by a summary of it confuses them
+    lat = refs[1][2]
+    pair = None
+    for n_ in (14, 15, 16):
+        spans = {}
+        for s_ in range(3, len(lat) - n_ - 1):
+            spans.setdefault(round(lat[s_ + n_ - 1] - lat[s_], 1), []).append(s_)
+        cand = [(v[0], v[-1]) for v in spans.values() if len(v) >= 2 and v[-1] - v[0] >= n_]
+        if cand:
+            pair = (n_,) + cand[0]
+            break
+    if pair:
+        n_, s1, s2 = pair
+        ws.append(dict(refs=[refs[1], refs[0], refs[2]],
+                       queries=[e2e.worlds.as_map(4, e2e.worlds.window_query(refs[1], s1, n_, False)[0][2]),
+                                e2e.worlds.as_map(9, e2e.worlds.window_query(refs[1], s2, n_, False)[0][2]),
+                                e2e.worlds.as_map(17, pool[1][1]), e2e.worlds.as_map(30, [100.0, 20000.0])],
+                       desc=['window s%d of %d labels' % (s1, n_), 'another window (s%d) with the same label count and span' % s2, 'plain', 'unalignable']))
     return ws
 
 
